@@ -204,7 +204,7 @@ class Node:
         self.cl_events[(f, self.periods[f])] = []
         self.world.reg_log[(self.idx, self.incarnation, f, self.periods[f])] = [self.world.h.loop.time(), None]
         self.watching.add(f)
-        self.prot.discovery.watch_service(C.Service(*f), self.listeners[f])
+        self.prot.discovery.watch_service(net.client_filter(C, f), self.listeners[f])
 
     def unwatch(self, f):
         import someip.config as C
@@ -212,7 +212,7 @@ class Node:
         if f in self.watching:
             self.watching.discard(f)
             self.world.reg_log[(self.idx, self.incarnation, f, self.periods[f])][1] = self.world.h.loop.time()
-            self.prot.discovery.stop_watch_service(C.Service(*f), self.listeners[f])
+            self.prot.discovery.stop_watch_service(net.client_filter(C, f), self.listeners[f])
 
     def graceful_stop(self):
         if self.alive and self.started:
